@@ -257,10 +257,10 @@ class tap_unicast : public aiounicast
 		virtual ~tap_unicast() {}
 };
 
-enum Kind { K_VSS = 0, K_GEN = 1 };
+enum Kind { K_VSS = 0, K_GEN = 1, K_SIGN = 2 };
 struct Case {
 	uint64_t seed = 0, idx = 0; int kind = K_GEN; int n = 2, t = 0, trbc = 0; unsigned pbits = 96, qbits = 32;
-	Z p, q, g, h; int dealer = 0; Z sigma;
+	Z p, q, g, h; int dealer = 0; Z sigma; Z msg;
 	std::vector<Dev> dev1, dev2; std::string tag;
 };
 
@@ -328,6 +328,41 @@ static void child_main(const Case &c, int me, int report_fd, int (*pp)[MAXN][2],
 			Z rec(-1L);
 			bool rr = vss.Reconstruct((size_t)c.dealer, rec, rbc, err);
 			cx.report(std::string("rec ret=") + (rr ? "1" : "0") + " sigma=" + rec.str());
+			barrier(cx, 2);
+		} else if (c.kind == K_SIGN) {
+			GennaroJareckiKrawczykRabinNTS nts(c.n, c.t, me, c.p, c.q, c.g, c.h, c.pbits, c.qbits, false, false);
+			cx.begin_step(c.dev1[me], 1);
+			bool r = nts.Generate(u, rbc, err, c.dev1[me].sfb);
+			cx.tap.drain(EV_OTHER);
+			{
+				GennaroJareckiKrawczykRabinDKG &dkg = *nts.dkg;
+				std::vector<size_t> &Q = dkg.QUAL;
+				std::string qs = "["; for (size_t i = 0; i < Q.size(); i++) { if (i) qs += ","; qs += std::to_string(Q[i]); } qs += "]";
+				cx.report(std::string("gen ret=") + (r ? "1" : "0") + " QUAL=" + qs + " x=" + zs(dkg.x_i) + " y=" + zs(nts.y) + " zi=" + zs(nts.z_i)
+					+ " yi=" + zvec(nts.y_i) + " strong=" + cx.tap.strong_s() + " weak=" + cx.tap.weak_s());
+			}
+			barrier(cx, 1);
+			cx.tap.strong.clear(); cx.tap.weak.clear();
+			hashlog.clear(); hashlog.log = true;
+			cx.begin_step(c.dev2[me], 3);
+			Z cc, ss;
+			bool sr = nts.Sign(c.msg, cc, ss, u, rbc, err, c.dev2[me].sfb);
+			cx.tap.drain(EV_OTHER);
+			hashlog.log = false;
+			std::string orc = "[";
+			{
+				std::vector<std::string> qs; qs.swap(hashlog.shash_inputs); bool first = true;
+				for (auto &qv : qs) {
+					if (std::count(qv.begin(), qv.end(), '|') != 2) continue;
+					Z a; tmcg_mpz_shash(a, qv);
+					if (!first) orc += ","; first = false;
+					orc += hexs(qv) + ":" + a.str();
+				}
+			}
+			orc += "]";
+			bool vr = nts.Verify(c.msg, cc, ss);
+			cx.report(std::string("sign ret=") + (sr ? "1" : "0") + " c=" + cc.str() + " s=" + ss.str() + " verify=" + (vr ? "1" : "0")
+				+ " strong=" + cx.tap.strong_s() + " weak=" + cx.tap.weak_s() + " oracle=" + orc);
 			barrier(cx, 2);
 		} else {
 			GennaroJareckiKrawczykRabinDKG dkg(c.n, c.t, me, c.p, c.q, c.g, c.h, c.pbits, c.qbits, false, false, "d");
@@ -436,6 +471,30 @@ static std::string run_case(const Case &c, double limit_s)
 		munmap(sh, sizeof(Shared));
 		return lines;
 	}
+	if (c.kind == K_SIGN) {
+		std::string orc; std::set<std::string> seen;
+		for (int i = 0; i < c.n; i++) {
+			const KV *s = find(i, "gen"), *sg = find(i, "sign");
+			// a party that died leaves one `dead` report with the coins of the step it died in
+			const KV *d = nullptr; for (auto &e : R[i]) if (e.first == "dead") d = &e.second;
+			const KV *c1 = s ? s : d; const KV *c2 = sg ? sg : (s ? d : nullptr);
+			in += " " + get(c1, "strong") + " " + get(c1, "weak") + " " + c.dev1[i].str();
+			in += " " + (c2 ? get(c2, "strong") : std::string("[]")) + " " + (c2 ? get(c2, "weak") : std::string("[]")) + " " + c.dev2[i].str();
+			if (sg) { std::string o = get(sg, "oracle"); if (o.size() > 2) { std::string inner = o.substr(1, o.size() - 2); std::istringstream is(inner); std::string e;
+				while (std::getline(is, e, ',')) if (seen.insert(e).second) { if (!orc.empty()) orc += ","; orc += e; } } }
+			if (!s) { out += " -"; prop += " P" + std::to_string(i) + ":-"; continue; }
+			std::string o = get(s, "ret") + "|";
+			if (!sg) { out += " " + o + "-"; prop += " P" + std::to_string(i) + ":" + o + "-"; continue; }
+			o += get(sg, "ret") + "|" + get(sg, "c") + "|" + get(sg, "s");
+			out += " " + o;
+			prop += " P" + std::to_string(i) + ":" + o + "|" + get(sg, "verify") + "|" + get(s, "QUAL") + "|" + get(s, "y");
+		}
+		std::string lines = "dkg.sign " + std::to_string(c.n) + " " + std::to_string(c.t) + " " + pqgh + " " + c.msg.str() + in + " [" + orc + "] tag:" + c.tag + " =>" + out + crash;
+		lines += "\nprop.dkg.sign seed=" + std::to_string(c.seed) + " case=" + std::to_string(c.idx) + " n=" + std::to_string(c.n) + " t=" + std::to_string(c.t)
+			+ " " + pqgh + " m=" + c.msg.str() + " honest=" + honest + " tag:" + c.tag + " =>" + prop + crash;
+		munmap(sh, sizeof(Shared));
+		return lines;
+	}
 	for (int i = 0; i < c.n; i++) {
 		const KV *s = find(i, "gen"), *d = find(i, "dead");
 		const KV *cs = s ? s : d;
@@ -462,6 +521,7 @@ static void make_case(Case &c, uint64_t seed, uint64_t idx, bool thorough, const
 	SplitMix g(seed * 0x9e3779b97f4a7c15ULL + idx * 0x100000001b3ULL + 0xd6e8feb86659fd93ULL);
 	c.seed = seed; c.idx = idx;
 	c.kind = (idx % 2 == 0) ? K_GEN : K_VSS;
+	if (idx % 6 == 5) c.kind = K_SIGN;
 	int pi;
 	if (idx < 2) pi = 13;                       // (7,2): the configuration of tests/t-dkg.cc
 	else if (idx < 4) pi = 9;                   // (6,1)
@@ -469,7 +529,7 @@ static void make_case(Case &c, uint64_t seed, uint64_t idx, bool thorough, const
 	else pi = (int)g.below(g.below(4) == 0 ? NPAIRS_ALL : NPAIRS);
 	c.n = PAIRS[pi][0]; c.t = PAIRS[pi][1];
 	if (o.val("--n") != "") { c.n = atoi(o.val("--n").c_str()); c.t = atoi(o.val("--t", "0").c_str()); }
-	if (o.val("--kind") != "") c.kind = (o.val("--kind") == "vss") ? K_VSS : K_GEN;
+	if (o.val("--kind") != "") c.kind = (o.val("--kind") == "vss") ? K_VSS : (o.val("--kind") == "sign") ? K_SIGN : K_GEN;
 	c.trbc = (c.n - 1) / 3;
 	switch (g.below(thorough ? 4 : 3)) { case 0: c.pbits = 96; c.qbits = 32; break; case 1: c.pbits = 128; c.qbits = 64; break; case 2: c.pbits = 256; c.qbits = 160; break; default: c.pbits = 512; c.qbits = 160; break; }
 	SmallGroup sg = make_group(g, c.pbits, c.qbits);
@@ -478,6 +538,7 @@ static void make_case(Case &c, uint64_t seed, uint64_t idx, bool thorough, const
 	do { gen_below(e, g, c.q); mpz_powm(c.h, c.g, e, c.p); } while (mpz_cmp_ui(e, 2) < 0 || !mpz_cmp(c.h, c.g) || mpz_cmp_ui(c.h, 1) <= 0 || mpz_cmp(c.h, pm1) >= 0);
 	c.dealer = (int)g.below(c.n);
 	switch (g.below(6)) { case 0: mpz_set_ui(c.sigma, 0); break; case 1: mpz_set_ui(c.sigma, 1); break; case 2: mpz_sub_ui(c.sigma, c.q, 1); break; default: gen_below(c.sigma, g, c.q); break; }
+	switch (g.below(6)) { case 0: mpz_set_ui(c.msg, 0); break; case 1: mpz_set_ui(c.msg, 1); break; case 2: mpz_sub_ui(c.msg, c.q, 1); break; case 3: mpz_set(c.msg, c.q); break; default: gen_bits(c.msg, g, 200); break; }
 	c.dev1.assign(c.n, Dev()); c.dev2.assign(c.n, Dev());
 	int fmax = std::min(c.t, c.trbc); if (2 * c.t >= c.n) fmax = 0;
 	int f = 0;
@@ -497,7 +558,17 @@ static void make_case(Case &c, uint64_t seed, uint64_t idx, bool thorough, const
 		auto other = [&]() { int r; do r = (int)g.below(c.n); while (r == me); return r; };
 		auto honest_other = [&]() { for (int tries = 0; tries < 50; tries++) { int r = other(); if (std::find(faulty.begin(), faulty.end(), r) == faulty.end()) return r; } return other(); };
 		int t = c.t, n = c.n;
-		if (c.kind == K_GEN) {
+		if (c.kind == K_SIGN) {
+			int how = force >= 0 ? force : (int)g.below(6);
+			switch (how) {
+			case 0: d2.S(); c.tag += ":sign-sfb"; break;
+			case 1: d2.A(3, 0, "1"); c.tag += ":sign-badsi"; break;                 // the broadcast s_i (no reconstruction inside k_dkg)
+			case 2: d2.Zk((long)g.below(4 * (t + 1) + 2 * n + 6)); c.tag += ":sign-silent"; break;
+			case 3: d.S(); c.tag += ":keygen-sfb"; break;
+			case 4: d2.D(3, 0); c.tag += ":sign-nosi"; break;
+			default: d2.A(3, 0, zs(c.q)); c.tag += ":sign-si-plusq"; break;
+			}
+		} else if (c.kind == K_GEN) {
 			int how = force >= 0 ? force : (int)g.below(12);
 			switch (how) {
 			case 0: d.S(); c.tag += ":sfb"; break;
